@@ -57,15 +57,21 @@ func (b *baseCockpit) start() *spinner.Spinner {
 
 func (b *baseCockpit) add(t *task.Task) {
 	b.mu.Lock()
-	defer b.mu.Unlock()
-
 	b.tasks = append(b.tasks, t)
+	b.mu.Unlock()
+
+	// the spinner runs PreUpdate, which takes b.mu, while holding its own lock: it is
+	// started, stopped and replaced under b.smu only, never with b.mu held
+	b.smu.Lock()
+	defer b.smu.Unlock()
 
 	if b.spinner == nil {
 		b.spinner = b.start()
 		go func() {
 			<-b.closeCh
+			b.smu.Lock()
 			b.spinner.Stop()
+			b.smu.Unlock()
 		}()
 	}
 }
@@ -77,18 +83,15 @@ func (b *baseCockpit) remove(t *task.Task) {
 			b.tasks = append(b.tasks[:k], b.tasks[k+1:]...)
 		}
 	}
-	started := b.spinner != nil
 	b.mu.Unlock()
 
-	// a task that was skipped or failed before its output started never started the spinner
-	if !started {
-		return
-	}
-
-	// the spinner calls PreUpdate, which takes b.mu, while holding its own lock:
-	// restart it without holding b.mu
 	b.smu.Lock()
 	defer b.smu.Unlock()
+
+	// a task that was skipped or failed before its output started never started the spinner
+	if b.spinner == nil {
+		return
+	}
 
 	var mark = aurora.Green("✔")
 	if t.Errored {
@@ -99,10 +102,8 @@ func (b *baseCockpit) remove(t *task.Task) {
 
 	// a stopped spinner is not started again: its goroutine may have returned
 	// with the spinner's lock held, which would block Start for ever
-	b.mu.Lock()
 	b.spinner = nil
 	b.spinner = b.start()
-	b.mu.Unlock()
 }
 
 func newCockpitOutputWriter(t *task.Task, w io.Writer, close chan bool) *cockpitOutputDecorator {
